@@ -236,6 +236,19 @@ def run(out: Outcome) -> None:
                     xs.insert(rng.randint(1, len(xs)), "r")
                 xs += gen.bernoulli_stream(rng, rng.randint(20, 120))
             check_spec(out, cls, p, xs, runners)
+    # ECDD-WT with SLOW forgetting (lambda_ 0.005 .. 0.05: the factor 1 - (1 - lambda_)^(2t) of the EWMA's variance is far from 1 for hundreds of updates) on runs of
+    # several hundred values
+    for _ in range(60 if thorough else 30):
+        p = {"lambda_": rng.choice([0.005, 0.005, 0.01, 0.01, 0.02, 0.05]), "average_run_length": rng.choice([100, 400, 1000]), "warning_level": rng.choice([0.3, 0.5, 0.8]),
+             "min_num_instances": rng.choice([5, 30])}
+        # the error rate changes while that factor is still well below 1 (t between 30 and ~2/lambda_), so that the chart's limits at the crossing are the transient ones
+        p0 = rng.choice([0.02, 0.1, 0.2])
+        xs = [1 if rng.random() < p0 else 0 for _ in range(rng.choice([35, 60, 101, 104, 110, 120, 130, 150, 180]))]
+        # (then a RAMP: the error rate climbs over a few dozen values, so the slow EWMA crosses the warning and the drift limit at steps that depend on where exactly they lie)
+        p1, ramp = rng.choice([0.3, 0.45, 0.6, 0.9]), rng.choice([1, 30, 80])
+        xs += [1 if rng.random() < p0 + (p1 - p0) * min(1.0, k / ramp) else 0 for k in range(rng.randint(150, 300))]
+        check_spec(out, "ECDDWT", p, xs, runners)
+        out.count("ecdd_slow_forgetting_long_runs")
     for _ in range(3 * n_rand):
         p = gen.rand_params(rng, "RDDM")
         check_rddm(out, p, gen.bernoulli_stream(rng, rng.randint(20, 600 if thorough else 250)), runners)
